@@ -11,11 +11,12 @@
    (16 allocation sites in the C's order, each followed along the C's error path; tied to
    the C on every run: with request k failing the ledger predicts every result, live-block
    count and request count after every call and the balance at exit), proofs in
-   P_ReaderMemFail.v; wf_decisions restricts the per-header allocation steps to the orders
-   the parser can produce (exercised on every parse of the correspondence runs; its
-   derivation from the parser model is not proved). *)
+   P_ReaderMemFail.v; the premise wf_decisions of the ledger-level theorems (the per-header
+   allocation steps come in an order the parser can produce) is discharged by parse_steps_wf,
+   so C20_fail_released_archive / C20_fail_reported_run hold directly over the lock-step run
+   from ANY archive bytes, stream kind and directory policy. *)
 From Lhasa Require Import Base Reader ReaderMem P_ReaderMem.
-From Lhasa Require ReaderMemFail P_ReaderMemFail.
+From Lhasa Require ReaderMemFail P_ReaderMemFail P_ReaderMemFailSteps.
 Local Open Scope N_scope.
 
 (* within the protocol (per entry: a check or an extract only as the first decode
@@ -62,6 +63,15 @@ Proof. exact P_ReaderMemFail.C20_fail_reported. Qed.
 Theorem C20_fail_mutation_would_fault : ltac:(let t := type of P_ReaderMemFail.C20_fail_mutation_would_fault in exact t).
 Proof. exact P_ReaderMemFail.C20_fail_mutation_would_fault. Qed.
 
+Theorem parse_steps_wf : ltac:(let t := type of P_ReaderMemFailSteps.parse_steps_wf in exact t).
+Proof. exact P_ReaderMemFailSteps.parse_steps_wf. Qed.
+Theorem C20_fail_released_run : ltac:(let t := type of P_ReaderMemFailSteps.C20_fail_released_run in exact t).
+Proof. exact P_ReaderMemFailSteps.C20_fail_released_run. Qed.
+Theorem C20_fail_released_archive : ltac:(let t := type of P_ReaderMemFailSteps.C20_fail_released_archive in exact t).
+Proof. exact P_ReaderMemFailSteps.C20_fail_released_archive. Qed.
+Theorem C20_fail_reported_run : ltac:(let t := type of P_ReaderMemFailSteps.C20_fail_reported_run in exact t).
+Proof. exact P_ReaderMemFailSteps.C20_fail_reported_run. Qed.
+
 Print Assumptions ledger_never_faults.
 Print Assumptions everything_released.
 Print Assumptions property_protocol_is_covered.
@@ -69,3 +79,7 @@ Print Assumptions abandoning_is_covered.
 Print Assumptions C20_fail_released.
 Print Assumptions C20_fail_reported.
 Print Assumptions C20_fail_mutation_would_fault.
+Print Assumptions parse_steps_wf.
+Print Assumptions C20_fail_released_run.
+Print Assumptions C20_fail_released_archive.
+Print Assumptions C20_fail_reported_run.
